@@ -82,11 +82,11 @@ Definition heap_eqb (a b : heap) : bool := list_eqb (list_eqb range_eqb) a b.
 
 (** Every stage starts from the heap the previous one left (as observed).  The
     slice-level model must reproduce what the validator returned AND the heap
-    afterwards; when no slice with fewer than two ranges has spare capacity
-    ([nss]) the value-level model of Model/Validators.v (the one the theorems of
-    Props/C10.v are about), applied to what the log reads as at that moment,
-    must reproduce the returned issues as well, on every pass. *)
-Fixpoint check_stages (L : list hstep) (fl : outcome (list ref)) (nss : bool) (h : heap)
+    afterwards; the value-level model of Model/Validators.v (the one the theorems
+    of Props/C10.v are about), applied to what the log reads as at that moment,
+    must reproduce the returned issues as well, on every pass and for every
+    memory layout. *)
+Fixpoint check_stages (L : list hstep) (fl : outcome (list ref)) (h : heap)
          (st : list stage) : bool :=
   match st with
   | [] => true
@@ -96,11 +96,9 @@ Fixpoint check_stages (L : list hstep) (fl : outcome (list ref)) (nss : bool) (h
       let pr := match k with O => proj_tn | _ => proj_id end in
       obs_match (list_eqb oissue_eqb) o (map_out (map (proj_issue pr)) out)
       && match out with Ok _ => heap_eqb h' hp | _ => true end
-      && (if nss
-          then obs_match (list_eqb oissue_eqb) o
-                 (map_out (map (proj_issue pr)) (match k with O => vap (val_log h L) | _ => vfc fl (val_log h L) end))
-          else true)
-      && check_stages L fl nss hp t
+      && obs_match (list_eqb oissue_eqb) o
+           (map_out (map (proj_issue pr)) (match k with O => vap (val_log h L) | _ => vfc fl (val_log h L) end))
+      && check_stages L fl hp t
   end.
 
 Definition check (c : case) : bool :=
@@ -110,7 +108,7 @@ Definition check (c : case) : bool :=
       let L := map (mk_hstep tbl (map (fun p : part => snd p) arts)) steps in
       let h := mk_heap h0 in
       let fl := match files with Some f => Ok (map (mk_ref tbl) f) | None => Err 1 end in
-      check_stages L fl (no_small_spare L) h stages
+      check_stages L fl h stages
       && list_eqb pair_eqb o_vni (vni (val_log h L))
   | CLog arts steps files o_vap o_vfc o_vni =>
       let tbl := map mk_art arts in
